@@ -11,6 +11,7 @@ import Verif.Model.Types.RulesPinned
 import Verif.Gen.SubtypeRules
 import Verif.Proofs.SubStruct
 import Verif.Proofs.SubAgree2
+import Verif.Proofs.SubTrans4
 namespace Verif.Properties.C08
 open Verif.Model.Types Verif.Model.Auth
 
@@ -69,19 +70,10 @@ theorem runtime_agrees_partial (a b : Ty) (fuel : Nat) (h : ∀ t, a ≠ .opt t)
       simp [refl]
     · simp [hb, hab]
 
-/-- Transitivity, **partial**: the region where one of the bounds / equalities applies.  The other
+/-- Transitivity, **partial**: the region where one of the bounds / equalities applies (kept from the
+    first round; any positive fuel).  The general result is `trans_kindstable_partial` below; the other
     proved regions are `trans_simple_partial` (the whole simple-type lattice) and
-    `trans_covariant_partial` (any stack of array / optional constructors over it).
-    Full statement (NOT proved; false as it stands, see `trans_witness`):
-      `∀ a b c, WF a → WF b → WF c → kindStable a → a <: b → b <: c → a <: c`
-    where `kindStable a` = no `Never` directly below an optional / array / dictionary constructor.
-    Missing: (1) agreement of the interpreter with the structured relation `Struct.sub` beyond simple
-    types and covariant containers (dictionaries, references, nominal types, intersections, functions,
-    capabilities: one unfolding lemma per rule, as `isSub_varArr`); (2) chains that *change shape*
-    — a container below `AnyStruct` / `AnyResource` / `HashableStruct` or below an optional of its
-    supertype — which need monotonicity of resource-kindedness along `<:` under `kindStable`;
-    (3) `permits` transitivity for references (M-AUTH) and subset transitivity for intersections;
-    (4) fuel monotonicity of the interpreter to state the result at one fuel. -/
+    `trans_covariant_partial` (any stack of array / optional constructors over it). -/
 theorem trans_partial (a b c : Ty) (fuel : Nat)
     (hreg : a = never ∨ c = any ∨ a = b ∨ b = c)
     (hab : isSub R (fuel + 3) a b = true) (hbc : isSub R (fuel + 3) b c = true) :
@@ -150,9 +142,74 @@ theorem fuel_monotone_partial (a b : Ty) (ha : a.wf = true) (hb : b.wf = true) (
     isSub R (n + k) a b = isSub R n a b := by
   rw [fuel_stable a b ha hb n hn, fuel_stable a b ha hb (n + k) (by omega)]
 
+/-- **Transitivity of the structured relation** over the whole type algebra — simple types, optionals,
+    arrays, dictionaries, references (via transitivity of `permits`, M-AUTH), composites / interfaces /
+    intersections (conformance closure), function types (contravariant parameters, covariant return,
+    purity), capabilities, inclusive ranges; same-shape chains and shape-changing chains into `T?`,
+    `AnyStruct`, `AnyResource`, `AnyStructAttachment`, `AnyResourceAttachment`, `HashableStruct`, `Any`
+    (monotonicity of resource-kindedness, attachment-ness and hashability along `<:`:
+    `Proofs/SubTrans2.{res_mono, att_mono, hash_mono}`).
+    Hypotheses: each type is `Good` (well-formed; `Any` at most as the whole type; nominal facts coherent with
+    one set of declarations `D`; reference authorizations writable); the sub-most type is kind-stable in
+    covariant position and the super-most type in contravariant position — exactly the complement of the
+    known finding's region (`trans_witness`, `trans_witness_contravariant`). -/
+theorem trans_struct_partial (D : List Iface) (hD : Coh D) (a b c : Ty)
+    (ha : Good D a) (hb : Good D b) (hc : Good D c)
+    (hsta : kindStable a = true) (hstc : stab false c = true)
+    (hab : Struct.sub a b = true) (hbc : Struct.sub b c = true) : Struct.sub a c = true :=
+  Verif.Proofs.SubTrans.trans_top D hD a b c ha hb hc hsta hstc hab hbc
+
+/-- **Transitivity of the interpreted rules of rules.yaml** (`IsSubType`) outside the known finding's
+    region, at any fuels from the driver's bounds upwards: `struct_agree` + `trans_struct_partial`.
+    Named partial because the unrestricted statement is false (`trans_witness`): what is excluded is
+    `Never` directly below an optional / array / dictionary constructor in a covariant position of the
+    sub-most type or a contravariant position (function parameter) of the super-most type; `Any` nested
+    inside a type (not denotable); function type parameters, legacy intersection types and `Storable`
+    are outside the model. -/
+theorem trans_kindstable_partial (D : List Iface) (hD : Coh D) (a b c : Ty)
+    (ha : Good D a) (hb : Good D b) (hc : Good D c)
+    (hsta : kindStable a = true) (hstc : stab false c = true)
+    (n1 n2 n3 : Nat) (h1 : fuelFor a b ≤ n1) (h2 : fuelFor b c ≤ n2) (h3 : fuelFor a c ≤ n3)
+    (hab : isSub R n1 a b = true) (hbc : isSub R n2 b c = true) : isSub R n3 a c = true := by
+  rw [struct_agree a b ha.wf hb.wf n1 h1] at hab
+  rw [struct_agree b c hb.wf hc.wf n2 h2] at hbc
+  rw [struct_agree a c ha.wf hc.wf n3 h3]
+  exact trans_struct_partial D hD a b c ha hb hc hsta hstc hab hbc
+
+/-- **Known finding, contravariant form**: the same failure with the container of `Never` in a function
+    parameter of the *super-most* type: `fun(&AnyResource) <: fun(&[AnyResource]) <: fun(&[Never])` but not
+    `fun(&AnyResource) <: fun(&[Never])`. -/
+theorem trans_witness_contravariant :
+    let f : Ty → Ty := fun p => .fn false (.consT (.ref unauthorized p) .nilT) (.prim "Void")
+    let a := f (.prim "AnyResource")
+    let b := f (.varArr (.prim "AnyResource"))
+    let c := f (.varArr never)
+    isSub R (fuelFor a b) a b = true ∧ isSub R (fuelFor b c) b c = true ∧ isSub R (fuelFor a c) a c = false ∧
+    kindStable a = true ∧ stab false c = false := by
+  decide
+
 /-! Non-vacuity / teeth -/
+section
+/-- the declarations of a small universe: `RJ: RI`, `SJ: SI` -/
+def exD : List Iface :=
+  [{ name := "RI", kind := .resource, confs := [] }, { name := "RJ", kind := .resource, confs := ["RI"] },
+   { name := "SI", kind := .struct, confs := [] }, { name := "SJ", kind := .struct, confs := ["SI"] }]
+example : Coh exD := ⟨by decide, by decide, by decide⟩
+/-- a shape-changing chain the theorem covers: `[R] <: [{RJ}] <: [RI]?`, then on to `AnyResource?` -/
+def exA : Ty := .varArr (.comp "R" .resource ["RI", "RJ"] false)
+def exB : Ty := .varArr (.inter [{ name := "RJ", kind := .resource, confs := ["RI"] }])
+def exC : Ty := .opt (.varArr (.iface { name := "RI", kind := .resource, confs := [] }))
+example : Good exD exA ∧ Good exD exB ∧ Good exD exC :=
+  ⟨⟨by decide, by decide, by simp [exA, exD, nomOK], by simp [exA, authOK]⟩,
+   ⟨by decide, by decide, by simp [exB, exD, nomOK], by simp [exB, authOK]⟩,
+   ⟨by decide, by decide, by simp [exC, exD, nomOK], by simp [exC, authOK]⟩⟩
+example : kindStable exA = true ∧ stab false exC = true := by decide
+example : isSub R (fuelFor exA exB) exA exB = true ∧ isSub R (fuelFor exB exC) exB exC = true := by decide
+end
+example : kindStable (.ref unauthorized (.varArr never)) = false := by decide
 example : (Ty.fn true (.consT (.ref unauthorized (.prim "Integer")) .nilT) (.opt (.dict (.prim "String") (.prim "Int8")))).wf = true := by decide
 example : (Ty.prim "Storable").wf = false ∧ (Ty.consT (.prim "Int") .nilT).wf = false := by decide
+
 example : isSub R 120 (.prim "Int8") (.prim "SignedInteger") = true ∧ isSub R 120 (.prim "SignedInteger") (.prim "Number") = true := by decide
 example : "Int8" ∈ Struct.primNames ∧ "Never" ∈ Struct.primNames := by decide
 example : (Verif.Proofs.SubStruct.Ctx.opt (.varArr .hole)).fill (.prim "Int8") = .opt (.varArr (.prim "Int8")) := rfl
